@@ -142,7 +142,7 @@ def run(tier, seed):
     _rc_cfg(ccfg, 3, (2, 3), "cast", live=False)
     jobs.append(("control", "cast", "", lambda: vc.tlc(SPEC, "Rcont2", ccfg, workers=2, timeout=900, extra=("-noGenerateSpecTE",))))
     for name, seeds, calls, mc, mr in (("Sampling/every-call", "1", "CallsAll", 1, 1),
-                                       ("Sampling/runs", "1, 2", "CallsFew", 2 if quick else 3, 1)):
+                                       ("Sampling/runs", "1, 2" if quick else "1, 2, 3", "CallsFew", 2, 1)):
         cfg = os.path.join(wd, "sa-%s.cfg" % calls)
         _sa_cfg(cfg, seeds, calls, mc, mr)
         const = "Seeds={%s} CallSet=%s MaxCalls=%d runs=%d" % (seeds, calls, mc, mr + 1)
